@@ -14,7 +14,7 @@ text = ('Each change compiles, keeps the pinned suite green (33 tests incl. doct
         'passes without it; each was confirmed by me in its worktree before being kept (`seeded/<id>/meta.json`: what it breaks, what it\n'
         'needs to manifest, what I ran). "witness" = the contract proof was UNDECIDED after the rewrite (lost anchor / construct outside the\n'
         'rules) or failed, and the native search produced a failing input that replays on the real code.  Seeds -1/-2 are the first round,\n'
-        '-3/-4 a second, -5/-6 a third and -7/-8 a fourth round by fresh sub-agents after the checks had been strengthened; the recorded outcome is that of the FINAL machinery.\n'
+        '-3/-4 a second, -5/-6 a third, -7/-8 a fourth and -9/-10 a fifth round by fresh sub-agents after the checks had been strengthened; the recorded outcome is that of the FINAL machinery.\n'
         'First-pass misses and what was strengthened: round 1 - C03-2 (push_null ownership), C17-2 / C08-2 (label ownership), C12-1 (ubjson unit),\n'
         'C13-2 (Frame-level transpose_one contracts), C05-1/2, C16-1/2, C19-1/2, C09-2 (no native fallback yet: c05/c16/c19/c09 oracles added),\n'
         'C02-1 (70000-frame candidates added), C07-2 (C07 now owns the reader-acceptance clause); round 2 - C06-4 (C06 now owns the Game Start\n'
@@ -25,7 +25,16 @@ text = ('Each change compiles, keeps the pinned suite green (33 tests incl. doct
         'on the first pass; round 4 (-7/-8) - C05-8 (start blocks whose version bytes are older than their length class added to the c05 oracle),\n'
         'C06-8 (no-occupied-port corruption added), C07-7 (hang watchdog and denser tail offsets for the .slp truncation search), C10-8 (completeness\n'
         'clause: the skip is refused ONLY without room for a Game End), C17-8 (C17 now owns the end-of-stream close clauses of the reader).\n'
-        'First-pass detection: round 1 26/40, round 2 37/40, round 3 36/40, round 4 35/40; 160 of 160 with the final machinery.\n\n'
+        'Round 5 (-9/-10; the agents were asked to break DIFFERENT clauses in DIFFERENT functions, in the least exercised corners) - C04-10 (a\n'
+        'same-id rollback in 2.2-2.x whose first occurrence lacks a character: frame histories 7 (same-id rollback with an absence) and 8 (Ice\n'
+        'Climbers leader absent while the follower is present, absence in the very first row) added to the candidate set), C07-9 (a hang only\n'
+        'with skip-frames AND hashing on a truncated file: the .slp truncation search now reads every prefix under all four option combinations),\n'
+        'C18-9 (unknown archive members with non-UTF-8 / directory / nested names added to the c18 oracle), C16-10 was caught by the native search\n'
+        'only although a contract existed (read_peppi_metadata in the slpp unit): C16 now owns those clauses.  In this round 28 of 40 seeds\n'
+        'restructured the code enough for an extraction anchor to be lost (contract proof UNDECIDED) and were caught by the native exploration;\n'
+        'that is what prompted the completeness clauses of A.2.\n'
+        'First-pass detection: round 1 26/40, round 2 37/40, round 3 36/40, round 4 35/40, round 5 37/40; 200 of 200 with the final machinery\n'
+        '(`seeded/SELFTEST_final.txt`: replay of the first 160 against the final quick checks; `seeded/RUN_LOG5.txt`: round 5).\n\n'
         '| Seed | What it breaks | Outcome of the registered check(s) |\n|---|---|---|\n' + '\n'.join(rows) + '\n')
 p = os.path.join(V, 'DESIGN.md')
 s = open(p).read()
